@@ -192,3 +192,49 @@ func InitStruct(s *Struct) *Val {
 	}
 	return v
 }
+
+
+// NilRequired reports whether encoding v writes a nil pointer to a struct that declares required
+// fields: the encoder writes such a pointer as an empty struct (C02), which the decoder must then
+// reject for the missing required fields (C09) - the value is outside the round-trip domain of C01.
+func NilRequired(s *Struct, v *Val) bool {
+	if v == nil {
+		return s.HasRequired()
+	}
+	for i, f := range s.Fields {
+		fv := v.F[i]
+		if Omitted(s, f, fv) {
+			continue
+		}
+		if nilRequiredType(f.Type, fv) {
+			return true
+		}
+	}
+	return false
+}
+
+func nilRequiredType(t *Type, v *Val) bool {
+	switch t.Kind {
+	case KStruct:
+		return NilRequired(t.St, v)
+	case KList, KSet:
+		if v == nil {
+			return false
+		}
+		for _, e := range v.L {
+			if nilRequiredType(t.Elem, e) {
+				return true
+			}
+		}
+	case KMap:
+		if v == nil {
+			return false
+		}
+		for _, e := range v.M {
+			if nilRequiredType(t.Key, e[0]) || nilRequiredType(t.Elem, e[1]) {
+				return true
+			}
+		}
+	}
+	return false
+}
